@@ -29,6 +29,22 @@ def failing_decls(log):
     return out or ["(see build log)"]
 
 
+def start_watchdog(seconds):
+    """A hung check is harness trouble (exit 2), never a verdict."""
+    import faulthandler
+    import threading
+
+    def fire():
+        sys.stderr.write("watchdog: check exceeded %ds, giving up (exit 2)\n"
+                         % seconds)
+        faulthandler.dump_traceback(file=sys.stderr)
+        sys.stderr.flush()
+        os._exit(2)
+    t = threading.Timer(seconds, fire)
+    t.daemon = True
+    t.start()
+
+
 def main():
     ap = argparse.ArgumentParser()
     ap.add_argument("prop")
@@ -39,6 +55,8 @@ def main():
                     help="skip lake build (setup just did it)")
     args = ap.parse_args()
     prop = args.prop
+    start_watchdog(int(os.environ.get(
+        "VERIF_WATCHDOG", "900" if args.tier == "quick" else "7200")))
     seed = int(os.environ.get("VERIF_SEED", "0") or 0)
     t0 = time.time()
 
